@@ -47,6 +47,8 @@ THEOREMS = [
     "AiuVerif.C02.normalize_total",
     "AiuVerif.C02.timesync_total",
     "AiuVerif.C02.power_total",
+    "AiuVerif.C02.bandwidth_total",
+    "AiuVerif.C02.tid_mapping_total",
 ]
 RULE = ("(a) random raw event dicts (phase from X,C,M,s,f,b,e,B,E,i,F,Q; random subsets of the keys each phase reads; falsy tid / bp) "
         "through the real convert_events; non-trivial = a required key is missing or an optional one present. (b) rich scenarios "
